@@ -16,6 +16,7 @@ type recorder struct {
 	heap map[string]bool
 	refs map[string]map[string]bool // heap key -> reference terms written through ("*" = whole array)
 	all  bool
+	havocDone bool
 }
 
 func (r *recorder) addRef(key, ref string) {
@@ -209,6 +210,7 @@ func (ex *Exec) assign(st *State, lhs ast.Expr, v *Val) {
 		if loc.Heap {
 			ex.guardCheck(st, loc, lhs, true)
 			ex.ownsCheck(st, loc, lhs)
+			ex.finalCheck(st, loc, lhs)
 		} else {
 			ex.recordAssign(loc.Obj)
 		}
